@@ -217,6 +217,36 @@ def builtin_history():
     return spec0, events, specs, descs
 
 
+def outside_helper_history():
+    """a plain helper of ANOTHER package (outside the caller's package scope: no rule describes it) is later given the
+    memento decorator -- a first definition under that name; the callers' cached versions must follow"""
+    def fn(name, kind, module, const, refs=(), **kw):
+        d = {"name": name, "kind": kind, "module": module, "const": const, "default": None, "kwdefault": None, "setconst": None, "tupconst": None,
+             "sset": None, "pair": None, "nested": None, "explicit": None, "hidden": None, "shadow": None, "refs": [list(r) for r in refs]}
+        d.update(kw)
+        return d
+    spec = {"pkg": "vpk", "nodes": [fn("hx", "p", "c", 5, outside=True),
+                                    fn("hy", "p", "c", 6, outside=True),
+                                    fn("m0", "m", "a", 10, [("hx", "attr")]),
+                                    fn("m1", "m", "a", 20, [("m0", "bare")]),
+                                    fn("m2", "m", "b", 30, [("hy", "attr")])]}
+    spec0 = copy.deepcopy(spec)
+    events, specs, descs = [], [], []
+
+    def step(evs, d, q):
+        events.extend(evs)
+        events.append({"op": "query", "names": q})
+        specs.append((copy.deepcopy(spec), {}, q))
+        descs.append(d)
+    step([], "rebind variable G0 (no change, first query)", ["m0", "m1", "m2"])
+    for nm, q in (("hx", ["m1", "m0"]), ("hy", ["m2", "m1"])):
+        n = vprog.node(spec, nm)
+        n["kind"] = "m"
+        n.pop("outside", None)
+        step([{"op": "exec", "mod": "c", "src": def_src(spec, n)}], "give the plain function %s of another package the memento decorator (first definition of a memento function of that name)" % nm, q)
+    return spec0, events, specs, descs
+
+
 def default_object_history():
     """mutable module variables that are the DEFAULT VALUE of a parameter (of a plain helper and of a memento function)
     are mutated in place: the function object keeps that very object, so its description changes with it; modifier clones
@@ -266,8 +296,8 @@ def run(tier, seed):
     terms, metas = [], []
     with C.Scratch("c13") as scratch:
         jobs = []
-        for hi in range(n_hist + 2):
-            spec0, events, specs, descs = builtin_history() if hi == n_hist else default_object_history() if hi == n_hist + 1 else gen_history(rng, rng.randint(4, 8) if tier == "quick" else rng.randint(4, 12))
+        for hi in range(n_hist + 3):
+            spec0, events, specs, descs = builtin_history() if hi == n_hist else default_object_history() if hi == n_hist + 1 else outside_helper_history() if hi == n_hist + 2 else gen_history(rng, rng.randint(4, 8) if tier == "quick" else rng.randint(4, 12))
             jobs.append((hi, spec0, events, specs, descs, str(rng.randint(0, 99999))))
 
         def work(job):
